@@ -325,7 +325,7 @@ Section BRIDGEPROOFS.
         unfold json_ok in Hs. destruct (all_paths ps) as [paths|] eqn:Hp; [|discriminate].
         cbn [run_stages]. unfold json_stage. rewrite Hp. cbn [p_labels].
         cbn [tr_chain tr_stage fold_left]. cbn [IE.sem_stage map]. unfold IE.sem_parser. rewrite (Hd1 (IE.e_msg Q e)), Hl.
-        set (kvs := combine (map pp_label ps) (map (json_get (IE.e_msg Q e)) paths)).
+        set (kvs := filter nonempty_kv (combine (map pp_label ps) (map (json_get (IE.e_msg Q e)) paths))).
         set (e1 := IE.set_fp Q (IE.set_lbl Q e (Some (IE.loverride m kvs))) (fpf (IE.loverride m kvs))).
         assert (H1 : line_result c r (i + 1)%N (map_update ls kvs) (hash_labels (map_update ls kvs)) e1).
         { apply (IH (i + 1)%N _ _ e1 (IE.loverride m kvs) Hr Hd2); [exact He|reflexivity|now apply same_map_update]. }
